@@ -60,12 +60,43 @@ type GenomeCfg struct {
 	SensorsFirst bool // never place a sensor behind a neuron in the node list
 	EnabledOf10  int  // how many genes out of ten are enabled on average (0 = the default of seven)
 	ShuffleMods  bool // list the modules in a generated order (control-node ids and innovation numbers not ascending)
+	Big          bool // one genome in twenty-five is large (up to 40 hidden nodes and 300 genes)
 }
 
 // genGenomeSpec is G-direct: a hand-built well-formed genome.
+// permuteNodeIds renames the ordinary nodes of a genome by a generated permutation of their ids (control nodes keep theirs, above
+// all ordinary ids): any order of roles in the node list, which stays sorted by id.
+func permuteNodeIds(t *rapid.T, s GenomeSpec) GenomeSpec {
+	ids := nodeIds(s.Nodes)
+	perm := rapid.Permutation(ids).Draw(t, "node id permutation")
+	m := map[int]int{}
+	for i, id := range ids {
+		m[id] = perm[i]
+	}
+	for i := range s.Nodes {
+		s.Nodes[i].Id = m[s.Nodes[i].Id]
+	}
+	sort.Slice(s.Nodes, func(a, b int) bool { return s.Nodes[a].Id < s.Nodes[b].Id })
+	for i := range s.Genes {
+		s.Genes[i].In, s.Genes[i].Out = m[s.Genes[i].In], m[s.Genes[i].Out]
+	}
+	for i := range s.Modules {
+		for j := range s.Modules[i].Ins {
+			s.Modules[i].Ins[j] = m[s.Modules[i].Ins[j]]
+		}
+		for j := range s.Modules[i].Outs {
+			s.Modules[i].Outs[j] = m[s.Modules[i].Outs[j]]
+		}
+	}
+	return s
+}
+
 func genGenomeSpec(cfg GenomeCfg) *rapid.Generator[GenomeSpec] {
 	return rapid.Custom(func(t *rapid.T) GenomeSpec {
 		s := drawGenomeSpec(t, cfg)
+		if !cfg.SensorsFirst && rapid.IntRange(0, 7).Draw(t, "permute node ids") == 0 {
+			s = permuteNodeIds(t, s)
+		}
 		if err := SpecWellFormed(s); err != nil {
 			panic(fmt.Sprintf("generator bug: G-direct produced a malformed genome: %v\n%s", err, jsonStr(s)))
 		}
@@ -97,6 +128,10 @@ func drawGenomeSpec(t *rapid.T, cfg GenomeCfg) GenomeSpec {
 	maxHidden := cfg.MaxHidden
 	if maxHidden == 0 {
 		maxHidden = 8
+	}
+	big := cfg.Big && rapid.IntRange(0, 49).Draw(t, "big genome") >= 48
+	if big {
+		maxHidden = 40
 	}
 	nHid := rapid.IntRange(0, maxHidden).Draw(t, "hidden")
 	id := rapid.IntRange(1, 3).Draw(t, "first id")
@@ -152,6 +187,9 @@ func drawGenomeSpec(t *rapid.T, cfg GenomeCfg) GenomeSpec {
 		maxGenes = 20
 	}
 	minGenes := cfg.MinGenes
+	if big {
+		maxGenes = 300
+	}
 	nGenes := rapid.IntRange(minGenes, maxGenes).Draw(t, "genes")
 	type key struct {
 		in, out int
